@@ -771,6 +771,7 @@ fn main() {
         json!({"integers": "every value of u8, i8, u16, i16; 0, +-1, +-(2^k-1, 2^k, 2^k+1) for k<=64, +-10^k for the wider types; bool",
                "f32": if thorough { "all 2^32 bit patterns" } else { "every sign/exponent value x 16389 mantissa patterns (8.4e6 values)" },
                "u32_i32": if thorough { "all 2^32 values of each" } else { "every high half x nine low halves (5.9e5 values of each)" },
+               "long_lists_and_pads": "lists of 0..=48 elements of varying width (i32, f64, &str with quotes, (i32,bool)) as slice and heapless::Vec; a pad of 0..=255 characters in front of a negative integer, a negative real and a string - through write_response and as queries PAD? p / LIST? n through run (alone, behind a query, in front of a failing query, twice behind a command)",
                "block_lengths": "every length 0..=1100, 9999..10001, 99999..100001 [999999..1000001, 9999999, 10000000]",
                "f64": format!("{} sign/exponent values x {} mantissa patterns (0, 1, all ones, every single bit, every prefix and suffix of ones, alternating) + high x low bit patterns 4 x 4 [8 x 8] bits", "all 4096", mants64.len()),
                "strings": {"alphabet": STR_ALPHA.iter().map(|s| show(s.as_bytes())).collect::<Vec<_>>(), "max_len": if thorough { 5 } else { 4 }, "count": strs.len(), "types": ["&str", "heapless::String<32>"]},
